@@ -272,6 +272,37 @@ impl Env {
                 enabled: true,
             }));
         }
+        // always-on device-side monitor: a successful write to the data area never lands on the
+        // extent of a key's current generation once that generation's sector is published (a record
+        // is written before its sector is published; markers go to retired extents; in-place
+        // rewrites do not exist) - double booking shows at the write, not only after a crash
+        if let (true, Some(disk)) = (self.cfg.persistent, &self.disk) {
+            let weak = Arc::downgrade(&store);
+            disk.set_write_guard(Some(Box::new(move |first, last| {
+                let store = weak.upgrade()?;
+                if store.len() > 256 {
+                    return None;
+                }
+                let version = store.verif_format_version();
+                for k in store.verif_hash_keys() {
+                    if k.sector == 0 {
+                        continue;
+                    }
+                    let blocks = crate::codec::extent_blocks(version, k.key.len(), k.value_len);
+                    if k.sector < last && first < k.sector + blocks {
+                        return Some(format!(
+                            "device write to blocks {first}..{last} overlaps extent {}+{blocks} of the current generation of key {:?} (ts {}, {} bytes, extent state {:#x})",
+                            k.sector,
+                            String::from_utf8_lossy(&k.key[..k.key.len().min(24)]),
+                            k.timestamp,
+                            k.value_len,
+                            k.extent_state
+                        ));
+                    }
+                }
+                None
+            })));
+        }
         self.store = Some(store);
         Ok(())
     }
